@@ -1,11 +1,12 @@
 """C09 - container series keep their length and dtype under every assignment history."""
 from contracts.c09_containers import CONTRACTS as CONTAINER_CONTRACTS
+from contracts.c10_labels import LabelItem
 from props.containers_bounded import Histories
 from verif.crosscheck import TARGETS as _XT, EncoderCrossCheck
 from verif.spec import PropertySpec
 
 PROPERTY = PropertySpec(
-    id='C09', contracts=list(CONTAINER_CONTRACTS), bounded=[Histories()], level='other',
+    id='C09', contracts=list(CONTAINER_CONTRACTS) + [LabelItem('__setitem__')], bounded=[Histories()], level='other',
     explanation='Representation invariant wf(container) (every indexed name bound to a 1-D array with one element per period) proved to be preserved, with the '
                 'whole view specified (every other binding identical) and the raising paths proved to change nothing, for add_variable, __setattr__ on a '
                 'variable (all value shapes: scalar, str, arbitrary sequence with the deliberately weak np.array contract, ndarray) and '
